@@ -28,6 +28,15 @@ CHECKS = {
  "C18": ("cobweb-mc", "model_checking", "exhaustive fault enumeration (despawn points x operations) by lazy-program exploration of the real crate + spec monitor",
          "Every public operation naming a system, reactor or entity (run, system event, entity event, insert, mutate, trigger, remove, register existing/new reactor with entity and despawn triggers, revoke) combined with despawns of its target at every point the lazy-program enumeration can place them (before queuing, between queuing and applying, after scheduling, while postponed, during the target's own run), singly and in pairs up to the budget: no panic, nothing runs for a dead target, payloads released, other registrations intact (table cross-check).",
          "Bounded (N<=3 quick, N<=4 thorough).", "DESIGN.md 5 C18"),
+ "C10": ("cobweb-mc+loom", "model_checking", "explicit-state BFS to a fixed point (sequential) + loom exhaustive interleavings of the real auto_despawn.rs (concurrent)",
+         "Sequential: every history of prepare / clone / drop / gc / manual despawn / reparent over 3 entities and <= 4 live clones is explored to the fixed point of the reachable (reference-model state, observed liveness, pending-signal count) set (about 4.9k states, depth 12), each transition re-executed on the real AutoDespawner / garbage_collect_entities in a fresh App and compared with a counter model (never despawned while a clone exists, despawned with descendants by the first gc after the last drop, exactly one signal per last drop, gc idempotent). Concurrent: loom explores all interleavings (complete DPOR for three 2-worker scenarios; preemption bound 6 for two larger ones in the thorough tier) of clone drops on worker threads against garbage collection on the main thread, on the real source file compiled against loom.",
+         "loom models std::sync::Arc; crossbeam's channel is replaced by a linearizable FIFO on loom primitives; if auto_despawn.rs stops compiling stand-alone the loom leg is skipped (reported in the evidence), never turned into a verdict.", "DESIGN.md 5 C10"),
+ "C16": ("cobweb-mc", "model_checking", "explicit-state BFS over histories of the real crate against a reference model",
+         "All histories (depth 5 quick, 8 thorough) of add / remove-subset / fire / despawn / manual run over one WorldReactor and two EntityWorldReactors with two triggers each and two entities; a reference model predicts the exact multiset of runs, the local data each run exposes (as modified by earlier runs), presence of the local-data component on every entity after every step, and that the three reactor systems are never despawned or duplicated.",
+         "Bounded depth; registration multiplicity per trigger capped at 2.", "DESIGN.md 5 C16"),
+ "C17": ("cobweb-mc", "model_checking", "explicit-state BFS over call sequences of the real crate against a reference map",
+         "All sequences (depth 4 quick, 6 thorough) of calls through syscall / named_syscall / spawned_syscall over 8 targets (two functions, two names, two spawned ids, a missing id), each optionally with a chain of nested calls (2 levels quick, 3 thorough) made from the commands the enclosing call queues; a reference map key -> counter predicts every run, input, output, command application before return, and Err-without-run for missing / running spawned systems.",
+         "Same-key recursion modelled as documented (inner state does not persist).", "DESIGN.md 5 C17"),
  "C02": ("cobweb-mc", "model_checking", LP,
          "Every program with at most N chosen operations over {Run, SysEvent, DespawnSys}x3 actors + Broadcast (preset listeners; plain, erring and exclusive systems; one or two trees) is executed on the real crate; the spec monitor requires for every command the runner reaches exactly one of run / postponed-while-busy / dropped-because-dead, exactly one run per obligation, and nothing pending when the flush returns.",
          "Bounded (N<=4 quick, N<=6 thorough); hooks only observe; harness marker commands are plain closures.", "DESIGN.md 5 C02"),
@@ -76,7 +85,7 @@ def main():
     hook_commits = [c.split()[0] for c in commits if c.split(' ', 1)[1].startswith("verif:")]
     m = {
         "version": 1,
-        "setup_cmd": "cd /verif/mc && CARGO_NET_OFFLINE=true cargo build --offline --profile mc",
+        "setup_cmd": "cd /verif/mc && CARGO_NET_OFFLINE=true cargo build --offline --profile mc -p cobweb-mc && (CARGO_NET_OFFLINE=true cargo build --offline --profile mc -p loom-c10 || true)",
         "hooks": {
             "guard": "cargo feature `verif` of bevy_cobweb (src/verif.rs and #[cfg(feature = \"verif\")] lines)",
             "enable": "the harness crate /verif/mc/harness depends on bevy_cobweb { path = \"/repo\", features = [\"verif\"] }",
@@ -85,6 +94,8 @@ def main():
             "add_only": True,
         },
         "engines": [
+            {"name": "loom-c10", "path": "/verif/mc/loom-c10", "serves_properties": ["C10"],
+             "kind_free_text": "loom model of the real src/ecs/auto_despawn.rs (copied at build time, std::sync::Arc -> loom::sync::Arc), run as a child process of the C10 check"},
             {"name": "cobweb-mc", "path": "/verif/mc/harness", "serves_properties": sorted(CHECKS.keys()),
              "kind_free_text": "stateless exhaustive explorer (odometer DFS over choice sequences, 16 threads) driving the real crate in a real bevy App; spec monitor judges every execution"},
         ],
